@@ -13,6 +13,7 @@ CONSTANTS
   MaxSep = 2
   UseFat = FALSE
   GFns = {}
+  NestOffs = {}
   MaxOpsPerFrame = 0
   MaxResets = 0
 INVARIANT RingAgrees
